@@ -44,8 +44,8 @@ package main
 // VALUE position (not called) and every function literal inside them gets an edge from
 // INIT. Functions they CALL are listed in `startupCalls` together with a computed flag
 // "something reachable from this callee mentions a function in value position" — such a
-// callee could store a function value in a global; Props/C08.lean demands that each one is
-// on a short hand-justified list. Their own direct use of outside-world primitives
+// callee could store a function value in a global, so it is made a root of every
+// configuration, unless it is on a short hand-justified list (Props/C08.lean checks both). Their own direct use of outside-world primitives
 // (SetShellCmd -> os.Getenv, os.Stat; time.LoadLocation) is host start-up, not script
 // behaviour, and is listed in `startupExternals` for the record.
 //
@@ -532,6 +532,10 @@ var cgEntryPoints = []string{
 	"zygo.(*Zlisp).ReplLineInfixWrap", "zygo.(*Zlisp).Clone", "zygo.(*Zlisp).Duplicate",
 	"zygo.(*Zlisp).Close", "zygo.(*Zlisp).Apply", "zygo.(*Parser).ParseTokens",
 }
+
+// start-up callees whose function values do not outlive start-up (mirrors
+// Spec.Prims.startupDiscards; Props/C08.lean checks that every name used here is on that list)
+var cgStartupDiscards = map[string]bool{"zygo.AllBuiltinFunctions": true}
 
 var cgWrapperNames = []string{"main.main", "main.usage", "zygo.ReplMain", "zygo.Repl", "zygo.runScript"}
 
@@ -1374,6 +1378,8 @@ func runCallGraph(w *World) (out string, err error) {
 	type scall struct {
 		Name    string
 		Creates bool
+		Node    int
+		AsRoot  bool
 	}
 	var startup []scall
 	for _, n := range scalls {
@@ -1384,7 +1390,17 @@ func runCallGraph(w *World) (out string, err error) {
 				creates = true
 			}
 		}
-		startup = append(startup, scall{n, creates})
+		// a callee that could create function values is made a ROOT of every configuration
+		// (sound: whatever it leaves behind is then covered) unless it is on the short list of
+		// callees whose function values are known to be dropped; Lean checks that list
+		// against Spec.Prims.startupDiscards
+		asRoot := creates && !cgStartupDiscards[n]
+		if asRoot {
+			for _, c := range []string{"bare", "std", "cli"} {
+				roots[c] = append(roots[c], b.byName[n])
+			}
+		}
+		startup = append(startup, scall{n, creates, b.byName[n], asRoot})
 	}
 
 	var sb strings.Builder
@@ -1492,12 +1508,12 @@ func runCallGraph(w *World) (out string, err error) {
 		}
 		fmt.Fprintf(&sb, "/-- (package, member) of its last node -/\ndef witnessFullTarget : String × String := (%s, %s)\n", LeanString(tp), LeanString(tn))
 	}
-	sb.WriteString("\n/-- functions CALLED by init functions / package-level initialisers, and whether anything\nreachable from them mentions a function in value position -/\n")
+	sb.WriteString("\n/-- functions CALLED by init functions / package-level initialisers: (name, does anything\nreachable from it mention a function in value position, node id, was it made a root) -/\n")
 	var sc []string
 	for _, s := range startup {
-		sc = append(sc, fmt.Sprintf("(%s, %v)", LeanString(s.Name), s.Creates))
+		sc = append(sc, fmt.Sprintf("(%s, %v, %d, %v)", LeanString(s.Name), s.Creates, s.Node, s.AsRoot))
 	}
-	sb.WriteString(LeanList("startupCalls", "(String × Bool)", sc, 100))
+	sb.WriteString(LeanList("startupCalls", "(String × Bool × Nat × Bool)", sc, 100))
 	var se []string
 	for n := range b.startupExternals {
 		se = append(se, n)
